@@ -402,7 +402,8 @@ pub fn check(c: &Case) -> Verdict {
 
 fn run(ctx: &Ctx) {
     ctx.run_regress::<Case, _>(check);
-    let strat = || Box::new((prop::collection::vec(spec_strategy(2), 0..12), ((1u8..25, any::<bool>()).prop_map(|(m, v)| m | if v { 0x80 } else { 0 }), any::<u64>()), prop::option::weighted(0.4, (0u8..2, 0u8..8, 0u8..16))).prop_map(|(events, sink, indent)| Case { events, sink, indent }));
+    // an end-of-document event may stand anywhere in the sequence (it writes nothing)
+    let strat = || Box::new((prop::collection::vec(prop_oneof![24 => spec_strategy(2), 1 => Just(EvSpec::Eof)], 0..12), ((1u8..25, any::<bool>()).prop_map(|(m, v)| m | if v { 0x80 } else { 0 }), any::<u64>()), prop::option::weighted(0.4, (0u8..2, 0u8..8, 0u8..16))).prop_map(|(events, sink, indent)| Case { events, sink, indent }));
     ctx.run_proptest_with("builder-histories", ctx.tier.pick(1_000_000, 10_000_000), strat, check);
 }
 
